@@ -433,7 +433,11 @@ def seq_lemma_prefix(st, new, old, n):
     the element at index n).  Each instance is itself checked valid in the sequence theory by
     z3 before it is assumed."""
     k = z3.Int("k!seqlemma")
-    lemma = z3.ForAll([k], z3.Implies(z3.And(k >= 0, k < n), new[k] == old[k]), patterns=[new[k]])
+    body = z3.Implies(z3.And(k >= 0, k < n), new[k] == old[k])
+    try:
+        lemma = z3.ForAll([k], body, patterns=[new[k]])
+    except z3.Z3Exception:
+        lemma = z3.ForAll([k], body)          # the term holds an if-then-else: no usable pattern
     st.assume(lemma)
 
 
@@ -617,6 +621,14 @@ def method(E, st, recv: V, name, args, kw, n):
                         yield st2, Raised(Exc(UnicodeDecodeError, origin="decode line %d" % line))
                     else:
                         yield st2, res
+            return
+        if name == "split" and k == "str" and len(args) == 1 and args[0].ty.kind == "str":
+            # s.split(sep): a new list with count(s, sep) + 1 pieces (sep non-empty), none of which contains sep
+            from .speceval import count_fn
+            r = fresh(SEQ(STR), "split")
+            st.assume(z3.Length(r.t) == count_fn()(recv.t, args[0].t) + 1)
+            st.assume(count_fn()(recv.t, args[0].t) >= 0)
+            yield st, E.alloc_list(st, r)
             return
         if name == "startswith" and k == "bytes":
             yield st, vbool(z3.PrefixOf(args[0].t, recv.t))
